@@ -210,3 +210,44 @@ CHECKS.update({
 
 _PENDING = "check under construction in this session (static rules designed in DESIGN.md section 5; not yet registered)"
 NOT_APPLICABLE = {("C%02d" % i): _PENDING for i in range(1, 21) if ("C%02d" % i) not in CHECKS}
+
+
+# Rules added during the build (DESIGN.md section 11); appended to the level text of each check.
+ADDED = {
+    "C01": "Also: the timestamp truncation pipeline (every path of TimestampProperty.clean through parse_into_datetime with both "
+           "precision arguments; truncation idioms) as a necessary condition of the round trip; the order in which the constructor "
+           "fills the object; the serializer injects only layout options into the encoder.",
+    "C02": "Also: LANGUAGE of the validation regexes included in the frozen reference grammars, decided over automata built from "
+           "re._parser (type names 2.0/2.1, dictionary keys, hex, relaxed UUID); type part and UUID part of an identifier are cut at "
+           "the same separator; the TLP colour is compared as stored.",
+    "C03": "Also: the reference grammars are included in the language of each validation regex (automata); the path grammar of the "
+           "selector walk is included in SELECTOR_REGEX and the walk descends into every Mapping; exactly None and [] mean 'not "
+           "given'; the key->type map of an observed-data container is complete before the first member is parsed.",
+    "C04": "Also: the custom-content flag is never reset once it may be set (reaching definitions); registry predicates are asked with "
+           "the asking property's spec version; the new-object escape hatch of a strict parse is decided for the five extension types.",
+    "C06": "Also: hash preference read from the if-chain or a loop over a constant sequence (a loop over the input is a violation); all "
+           "structural clauses of the RFC 8785 form (C16) as necessary conditions of implementation-independent ids.",
+    "C07": "Also: an API parameter omitted at a delegate call is a violation even with equal defaults; selectors are compared as whole "
+           "strings (membership only in lists of selectors).",
+    "C08": "Also: language inclusion (automata) of every producible path in SELECTOR_REGEX; descent into every Mapping (embedded "
+           "objects, extensions); the walk leaves its loop only on a match; validate() tests every selector.",
+    "C09": "Also: every rebuilt pattern node binds all constructor parameters (a copy cannot reset NOT); observation-level AND "
+           "containment consumes matched operands (multiset semantics).",
+    "C10": "Also: producer/consumer agreement grammar tokens -> visitTerminal classes -> qualifier constructors; FloatConstant never "
+           "prints an exponent form; .property_name only under the isinstance test quoted steps need.",
+    "C11": "Also: every id the sink can write is admitted by the regex that recognises id-named directories (automata).",
+    "C12": "Also: the filter set evaluated per object is a private FilterSet(query) grown only by add().",
+    "C14": "Also: at EVERY resolved call site where a spec version is in force (version parameter, self.spec_version, code and class "
+           "bodies of the v20/v21 packages; 500 sites) the callee's version parameter is bound to it.",
+    "C15": "Also: every path of TimestampProperty.clean passes the parser; the abstract fraction string tracks 'prefix of the "
+           "microsecond digits' (left padding is a violation).",
+    "C16": "Exponent windows are also read from chained comparisons.",
+    "C17": "Also: attributes read from registry classes selected by input exist on every registrable class or are read with a default; "
+           "calls from constraint code into input-parsing third-party packages sit in a converting try.",
+    "C18": "Also: the filter set handed to member sources is a fresh FilterSet; a query never modifies self.filters.",
+    "C19": "Also: exact language (automata, both inclusions) of the two type-name grammars.",
+    "C20": "Functions rewritten with arithmetic on the value ((x + 5) // 10, str(step)) or as table lookups are read by a symbolic "
+           "reader (terms floor((m*x+a)/b) inverted over intervals); on the comparison-chain form both readers run and must agree.",
+}
+for _p, _t in ADDED.items():
+    CHECKS[_p]["text"] = CHECKS[_p]["text"] + " " + _t
